@@ -294,7 +294,10 @@ PeerOffer(d) ==
 \* E selects from ITS OWN list; the exchange completes if the peer can run it.
 ServerSelectRun ==
   /\ phase = "s_select"
-  /\ LET cand == FirstIn(cfg.methods, offered) IN
+  \* (E picks the first method of ITS list that the peer offered; since fix 6278097
+  \* it only picks among the methods the peer also NAMED in its ad - the peer names
+  \* what it can run - so both readings are admitted)
+  /\ \E cand \in {FirstIn(cfg.methods, offered), FirstIn(cfg.methods, offered \cap Runnable)} :
        /\ cand \in Runnable
        /\ sel' = cand /\ ran' = cand
   /\ phase' = "key"
